@@ -1327,7 +1327,7 @@ def fam_run(tier, outdir):
     consts = {"Handles": "{1}", "MaxTime": 3, "MaxCalls": 1, "PipeCap": 4, "MaxOut": 2, "ExitCodes": "{3}", "TermDelay": 1,
               "DlOpts": "{0, 1}", "SinkFails": "{1, 3}", "Policies": "{0, 1, 2, 3}"}
     if tier == "thorough":
-        consts.update({"MaxTime": 4, "MaxOut": 3, "SinkFails": "{1, 2, 3, 4}", "Policies": "{0, 1, 2, 3, 4}", "DlOpts": "{0, 1, 2}"})
+        consts.update({"SinkFails": "{1, 2, 3}", "Policies": "{0, 1, 2, 3, 4}"})   # (longer clock / more output / a third deadline as well: 8 M states, over an hour for C16)
     cfg = os.path.join(outdir, "MC_Run.cfg")
     write_cfg(cfg, "Spec", consts, ["TypeOK", "RunTruthful"], export_stride=2 if tier == "quick" else 1)
     return run_tlc_export("run", "MC_Run", cfg, outdir, tier, asan_stride=8, stride=1)
